@@ -141,3 +141,22 @@ def double_op(op, route, x, y):
     if kindo != "value" or not isinstance(r, float):
         return False, f"{x!r} {op} {y!r}: expected {exp!r}, got {kindo} {r!r}"
     return _same(float(r), exp), f"{x!r} {op} {y!r}: expected {exp!r}, got {float(r)!r}"
+
+
+def neg_spellings(kind, runner, a):
+    from celpy import celtypes as ct
+    cls = ct.IntType if kind == "int" else ct.UintType
+    MIN = -(2**63)
+    for src, n in (("--a", 2), ("- -a", 2), ("-(-a)", 2), ("---a", 3), ("-(-(-a))", 3), ("- - - -a", 4), ("0 - -a", "0--"), ("-a - -a", "zero")):
+        prog = make_program(src, runner)
+        kd, r = evaluate_outcome(lambda: prog.evaluate({"a": cls(a)}))
+        if kd == "escape":
+            return False, f"`{src}` with a={a} ({kind}) under {runner}: {type(r).__name__} escaped"
+        if kind == "uint" or a == MIN:
+            if kd != "error":
+                return False, f"`{src}` with a={a} ({kind}) under {runner}: negation must be an error here, got {r!r}"
+            continue
+        want = a if n in (2, 4, "0--") else (0 if n == "zero" else -a)
+        if kd != "value" or int(r) != want:
+            return False, f"`{src}` with a={a} ({kind}) under {runner}: expected {want}, got {kd} {r!r}"
+    return True, "ok"
